@@ -294,6 +294,9 @@ func (d *driver) runMultiproof(w emitter, pid int, pr *proofProg) {
 			fsBefore[i] = append([]fr.Element(nil), polys[i]...)
 		}
 		label := pr.Label
+		if pid%2 == 1 {
+			failingProverCalls(cfg, pid)
+		}
 		// ---- prove
 		e := ev{"ev": "prove", "prog": pid, "label": bytesToInts([]byte(label)), "polys": polyTab, "pidx": pidx, "zs": zz, "cs_before": csBefore,
 			"numcpu": runtime.NumCPU(), "gomaxprocs": runtime.GOMAXPROCS(0)}
@@ -789,6 +792,59 @@ func forgeProof(cfg *ipa.IPAConfig, label string, cs []*banderwagon.Element, fs 
 	return &multiproof.MultiProof{IPA: ip, D: D}
 }
 
+// failingProverCalls: prover calls that return errors (outside what the properties quantify over, but legal calls): a polynomial of the
+// wrong length through CreateIPAProof at points inside and outside the domain, mismatched lists and a short polynomial through
+// CreateMultiProof, a malformed proof through the IPA verifier.  Whatever they leave behind must not influence the judged calls.
+func failingProverCalls(cfg *ipa.IPAConfig, k int) {
+	defer func() { recover() }()
+	short := make([]fr.Element, 255)
+	long := make([]fr.Element, 257)
+	for i := range short {
+		short[i].SetUint64(uint64(i + 3))
+	}
+	for i := range long {
+		long[i].SetUint64(uint64(i + 5))
+	}
+	C := cfg.SRS[2]
+	for j, z := range []uint64{uint64(k*37+200) % 256, uint64(k*11+7) % 256, 256, 1 << 40} {
+		var zf fr.Element
+		zf.SetUint64(z)
+		for _, f := range [][]fr.Element{short, long, nil} {
+			func() {
+				defer func() { recover() }()
+				_, _ = ipa.CreateIPAProof(common.NewTranscript("failing"), cfg, C, f, zf)
+			}()
+		}
+		func() {
+			defer func() { recover() }()
+			var bad ipa.IPAProof
+			bad.L = make([]banderwagon.Element, 7-j%2)
+			bad.R = make([]banderwagon.Element, 7-j%2)
+			for i := range bad.L {
+				bad.L[i], bad.R[i] = cfg.SRS[i], cfg.SRS[i+9]
+			}
+			_, _ = ipa.CheckIPAProof(common.NewTranscript("failing"), cfg, C, bad, zf, fr.One())
+		}()
+	}
+	full := make([]fr.Element, 256)
+	full[3].SetOne()
+	for _, c := range []struct {
+		cs []*banderwagon.Element
+		fs [][]fr.Element
+		zs []uint8
+	}{
+		{[]*banderwagon.Element{&C, &C}, [][]fr.Element{full}, []uint8{1, 2}},
+		{[]*banderwagon.Element{&C}, [][]fr.Element{full}, []uint8{1, 2}},
+		{[]*banderwagon.Element{&C, &C}, [][]fr.Element{full, short}, []uint8{uint8(k), 2}},
+		{nil, nil, nil},
+	} {
+		func() {
+			defer func() { recover() }()
+			_, _ = multiproof.CreateMultiProof(common.NewTranscript("failing"), cfg, c.cs, c.fs, c.zs)
+		}()
+	}
+}
+
 // ---- IPA (C04) ----
 
 func (d *driver) runIPA(w emitter, pid int, pr *proofProg) {
@@ -800,6 +856,9 @@ func (d *driver) runIPA(w emitter, pid int, pr *proofProg) {
 	ptf := frFromBig(pt)
 	label := "ipa-" + pr.Label
 	fBefore := append([]fr.Element(nil), f...)
+	if pid%2 == 1 {
+		failingProverCalls(cfg, pid)
+	}
 	tr := common.NewTranscript(label)
 	e := ev{"ev": "ipa_prove", "prog": pid, "label": bytesToInts([]byte(label)), "f": vecReg(f), "c": coords(&C), "point": limbsOfBig(pt), "pcls": pr.Point}
 	var proof ipa.IPAProof
